@@ -1,6 +1,6 @@
 """Property -> rules."""
 
-from . import rules_rta, rules_fp, rules_sib, rules_ros2, rules_total, controls, rules_models, witness, rules_mono
+from . import rules_rta, rules_fp, rules_sib, rules_ros2, rules_total, controls, rules_models, witness, rules_mono, rules_sem
 from .rta_model import ANALYSES
 
 FP = [p for p in ANALYSES if p.startswith('fixed_priority::')]
@@ -110,15 +110,21 @@ def c19(ctx, rep):
     rep.floor('analysis records', n, 8)
     k = rules_sib.check_supply_parametric(rep, crate)
     rep.floor('ROS 2 entry points', k, 7)
-    rep.floor('rule instances', len(rep.instances), 30)
-    rep.assume('numeric agreements named by the property (Periodic supply with budget = period equals Dedicated as '
-               'functions; largest NP-EDF bound = FIFO bound; event source = FIFO) are NOT decided: they are facts '
-               'about values, not about code shape')
+    rep.rule('SUP-WF', 'the constructor asserts of each reservation model yield the well-formedness assumptions used below')
+    rep.rule('SUP-SIB', 'Periodic[budget := period] = Dedicated and Constrained[budget := deadline := period] = Dedicated (and '
+                        'Constrained[deadline := period] = Periodic) for provided_service and service_time, proved for all arguments by '
+                        'linear entailment; with PARAM every ROS 2 analysis therefore returns the same result for the three supplies')
+    q = rules_sem.check_supply_laws(rep, crate, sib_only=True)
+    rep.floor('supply reductions proved', q, 8)
+    rep.floor('rule instances', len(rep.instances), 36)
+    rep.assume('the remaining numeric agreements named by the property (largest NP-EDF bound = FIFO bound; event source = FIFO) '
+               'are NOT decided: they are facts about values, not about code shape')
     return ('Static sibling comparison: the busy-window equation, per-offset equation, result extraction and search '
             'space of each FP/EDF entry point are recovered as canonical terms; each reduction named by C19 is decided as '
             'a term identity under substitution, for all inputs. For the ROS 2 analyses supply-parametricity is decided '
-            'from the type-checked signatures and the uses of the supply value. Does NOT decide the numeric agreements '
-            '(supply equivalences as functions, NP-EDF max = FIFO, event source = FIFO).')
+            'from the type-checked signatures and the uses of the supply value, and the three supplies the property '
+            'names are proved to be the same pair of functions (linear entailment over their guarded cases), so the ROS 2 '
+            'analyses agree on them. Does NOT decide the remaining numeric agreements (NP-EDF max = FIFO, event source = FIFO).')
 
 
 ROS2_RULES = {
@@ -270,6 +276,14 @@ def witness_instances(rep, ctx, wanted, prop):
         rep.infra_errors.append('witness crate did not build: ' + tail[-400:])
 
 
+def sem_rules(rep):
+    rep.rule('SUP-WF', 'the constructor asserts of each reservation model yield the well-formedness assumptions used below')
+    rep.rule('SUP-ZERO', 'provided_service(0) = 0 and service_time(0) = 0, proved by linear entailment over the guarded cases')
+    rep.rule('SUP-LIP', '0 <= provided_service(delta + 1) - provided_service(delta) <= 1 for all delta and parameters (quotient-step case split)')
+    rep.rule('SUP-INV', 'for d >= 1: provided_service(service_time(d)) >= d and provided_service(service_time(d) - 1) <= d - 1 (composition of the guarded cases)')
+    rep.rule('SUP-SIB', 'Constrained[deadline := period] = Periodic, Periodic[budget := period] = Dedicated, Constrained[budget := deadline := period] = Dedicated, for provided_service and service_time')
+
+
 def c09(ctx, rep):
     crate = ctx.crate('dbg')
     for a in MODEL_ASSUMPTIONS:
@@ -281,13 +295,21 @@ def c09(ctx, rep):
     rep.rule('ST-INIT/ST-RET/ST-STEP', 'default service_time: starts at t = demand, returns t exactly when provided_service(t) >= demand, advances by demand - supply')
     n = rules_models.check_ref(rep, crate, 'C09')
     rules_fp.check_default_service_time(rep, crate)
+    sem_rules(rep)
+    k = rules_sem.check_supply_laws(rep, crate)
     rep.floor('reference summaries compared', n, 15)
-    return ('Static analysis of supply/: the closed-form supply-bound functions and their closed-form inverses (Periodic, '
+    rep.floor('supply laws instantiated', k, 26)
+    return ('Static analysis of supply/. (1) The closed-form supply-bound functions and their closed-form inverses (Periodic, '
             'Constrained, Dedicated), the constructors\' precondition asserts and the forwarding impls are summarised as canonical '
             'terms and compared with reviewed references; the generic jump-ahead inverse is decided by its one-iteration loop '
-            'summary. Decides that the code computes the reviewed closed forms (any edit to them is reported); does NOT '
-            'decide that these closed forms equal the minimum service over all budget placements, nor that service_time is the '
-            'exact inverse for every demand -- those are facts about values.')
+            'summary. (2) The algebraic laws the property states are PROVED of the current code for all parameters and '
+            'arguments, by linear entailment over the guarded cases of each function with quotient/remainder facts for the '
+            'integer divisions (sa/linarith.py, Fourier-Motzkin on the case polyhedra; no execution): provided_service(0) = 0, '
+            '0 <= provided_service(d+1) - provided_service(d) <= 1, provided_service(service_time(d)) >= d and '
+            'provided_service(service_time(d) - 1) <= d - 1 (service_time is the exact inverse), Constrained[deadline := period] = '
+            'Periodic and [budget := period] = Dedicated for both methods -- under the assumptions the constructors assert. '
+            'Does NOT decide that the closed forms equal the minimum service over all budget placements (a fact about the '
+            'scheduling model, covered only by the hand-reviewed reference).')
 
 
 def c10(ctx, rep):
@@ -303,14 +325,21 @@ def c10(ctx, rep):
     z = rules_models.check_zero(rep, crate)
     j = rules_models.check_jitter(rep, crate)
     d = rules_models.check_deleg(rep, crate, 'arrival')
+    rep.rule('ARR-ZERO / ARR-MONO', 'Periodic, Sporadic: number_arrivals(0) = 0 and number_arrivals(delta + 1) >= number_arrivals(delta), proved by linear entailment over the guarded cases')
+    rep.rule('ARR-CEIL', 'Periodic, Sporadic: for delta >= 1 number_arrivals(delta) is the least n with n * T >= delta + J (= ceil((delta + J) / T)): attained by the synchronous maximally jittered release sequence, and sub-additive by leastness')
+    al = rules_sem.check_arrival_laws(rep, crate)
+    rep.floor('closed-form arrival laws proved', al, 6)
     rep.floor('reference summaries compared', n, 36)
     rep.floor('number_arrivals implementations', z, 10)
     rep.floor('clone_with_jitter implementations + window checks', j, 12)
     rep.floor('composite number_arrivals', d, 3)
     return ('Static analysis of the arrival models: every model function is summarised as a canonical term (closed forms) or a '
             'one-iteration loop summary and compared with a reviewed reference; plus zero-at-zero, jitter additivity, '
-            'window widening and superposition clauses. Decides these structural clauses for all parameters; does NOT '
-            'decide that the counts bound real event sequences (numeric).')
+            'window widening and superposition clauses. For the two closed-form models (Periodic, Sporadic) the laws are '
+            'PROVED of the current code for all parameters by linear entailment with quotient/remainder facts '
+            '(sa/linarith.py): zero at zero, non-decreasing, and number_arrivals(delta) = ceil((delta + J) / T) for '
+            'delta >= 1. Decides these clauses for all parameters; does NOT decide that table-driven models '
+            '(Curve, ArrivalCurvePrefix, Poisson) bound real event sequences (numeric).')
 
 
 def c11(ctx, rep):
@@ -327,6 +356,9 @@ def c11(ctx, rep):
     b = rules_models.check_step_seams(rep, crate)
     c = rules_models.check_step_dedup(rep, crate)
     d = rules_models.check_step_conversion(rep, crate)
+    rep.rule('STEP-LAW', 'Periodic, Sporadic: steps_iter yields exactly the points of increase of number_arrivals -- sound (every yielded value is >= 1 and an increase), complete (every increase is period * j + c for j = (delta - c) / period, in range and passing the filter), strictly increasing -- proved by linear entailment')
+    sl = rules_sem.check_step_laws(rep, crate)
+    rep.floor('closed-form step laws proved', sl, 7)
     col = controls.Collector()
     rules_models.check_step_nonzero(col, ctx.fixtures('dbg')) if False else None
     rep.floor('reference summaries compared', n, 24)
@@ -401,6 +433,12 @@ def c14(ctx, rep):
     o = rules_models.check_extrapolate_before_lookup(rep, crate, '<wcet::curve::ExtrapolatingCurve as wcet::JobCostModel>::cost_of_jobs',
                                                      'wcet::curve::Curve::extrapolate', 'wcet::JobCostModel::cost_of_jobs', 'wcet')
     witness_instances(rep, ctx, ['WcetExtrapolatingCurveIsNotSend', 'WcetExtrapolatingCurveIsNotSync'], 'C14')
+    rep.rule('COST-ZERO', 'cost_of_jobs(0) = 0 for every implementation (default: take(0); overrides: linear entailment over the guarded cases)')
+    rep.rule('COST-SUM', 'cost_of_jobs(n) is the sum of the first n items of job_cost_iter: by the default\'s definition, by repeat(c) with c * n, or because the items are the telescoping differences cost_of_jobs(k) - cost_of_jobs(k - 1)')
+    rep.rule('COST-LEAST', 'least_wcet(n) is the minimum of the first n items (0 if none): default definition; Scalar; Multiframe (cycle); table-driven curves on the recorded prefix')
+    rep.rule('COST-PREFIX', 'table-driven curves return table[n - 1] for 1 <= n <= len (linear entailment with quotient/remainder facts and index congruence)')
+    cl = rules_sem.check_cost_laws(rep, crate)
+    rep.floor('cost-model laws decided', cl, 16)
     rep.floor('reference summaries compared', n, 28)
     rep.floor('RefCell borrow sites', c, 2)
     rep.floor('writers of the cache', a, 1)
@@ -408,8 +446,11 @@ def c14(ctx, rep):
             '(sum of the first n items, successive differences, min over the first n increments with the loop range '
             '1..min(len, n)), the trace-extraction loop (newest-first scan of the whole window), the sub-additive '
             'extrapolation (min over k in 0..=n/2) and the RefCell discipline / append-only / extrapolate(n+1)-before-lookup '
-            'clauses of the caching variant, with compile-fail witnesses for !Send/!Sync. Does NOT decide domination of '
-            'traces beyond the prefix.')
+            'clauses of the caching variant, with compile-fail witnesses for !Send/!Sync. The algebraic laws of the property '
+            '(cost_of_jobs(0) = 0, cost_of_jobs(n) = sum of the first n items, least_wcet(n) <= every one of them, the recorded '
+            'prefix is returned unchanged) are decided per implementation from the shapes of its three methods and by linear '
+            'entailment (sa/linarith.py). Does NOT decide domination of traces beyond the prefix, nor monotonicity of a '
+            'user-supplied table (a documented precondition of Curve::new; FromIterator enforces it).')
 
 
 def c15(ctx, rep):
@@ -465,13 +506,21 @@ def c16(ctx, rep):
     rep.rule('DELEG', 'Aggregate/Slice: sum / min(default 0) over every component of the same method with the arguments passed through')
     n = rules_models.check_ref(rep, crate, 'C16')
     d = rules_models.check_deleg(rep, crate, 'demand')
+    rep.rule('DEMAND-DEF', 'the default service_needed is the sum of job_cost_iter(delta); the default service_needed_by_n_jobs is the sum of its n largest items; nobody overrides the latter')
+    rep.rule('DEMAND-RBF', 'RBF: service_needed = cost_of_jobs(N), job_cost_iter = first N items, least_wcet_in_interval = least_wcet(N) for the one N = number_arrivals(delta)')
+    rep.rule('DEMAND-AGG', 'Aggregate/Slice: job_cost_iter is a merge of the components\' job_cost_iter(delta) over the same collection service_needed sums over')
+    dl = rules_sem.check_demand_laws(rep, crate)
+    rep.floor('request-bound laws decided', dl, 5)
     rep.floor('reference summaries compared', n, 36)
     rep.floor('composite request-bound methods', d, 6)
     return ('Static analysis of demand/: RBF composes cost_of_jobs(number_arrivals(delta)), job_cost_iter takes exactly '
             'number_arrivals(delta) items; Aggregate and Slice delegate by sum / min / k-merge over every component; the default '
             'service_needed_by_n_jobs is sorted -> rev -> take(max_jobs) -> sum; the auto_impl forwards call the same method '
             'with the same arguments -- each decided as identity of canonical terms with reviewed references plus the DELEG '
-            'form. Does NOT decide numeric relations between the methods for given models.')
+            'form. The relations the property states between the methods (job_cost_iter sums to service_needed; '
+            'service_needed_by_n_jobs is non-decreasing in n, at most service_needed, equal to it from the number of jobs on, and '
+            'the sum of the n largest costs) follow from the definitional shapes decided by DEMAND-DEF / DEMAND-RBF / DEMAND-AGG '
+            'together with C14\'s COST-SUM. Does NOT decide anything about user-supplied models beyond the trait axioms.')
 
 
 class OnlyRules:
